@@ -30,7 +30,8 @@ DRIVER_MAIN = r'''
 #include <iostream>
 #include <sstream>
 #include <exception>
-struct FsvArg { int kind; int es; long n; };   // kind 0 in-buffer, 1 out/inout buffer, 2 scalar
+#include <sys/mman.h>
+struct FsvArg { int kind; int es; long n; int align; };   // kind 0 in-buffer, 1 out/inout buffer, 2 scalar
 struct FsvCase { const char* id; void (*k)(void**, unsigned long long*); void (*r)(void**, unsigned long long*); int nargs; FsvArg args[12]; };
 extern FsvCase fsv_cases[]; extern int fsv_ncases;
 extern "C" void fsv_assume(int) {}
@@ -41,12 +42,16 @@ int main(){
         std::istringstream is(line); int ci; std::string which; int mis;
         if(!(is >> ci >> which >> mis)) continue;
         FsvCase& c = fsv_cases[ci];
-        void* p[12]; unsigned long long sc[12]; std::vector<char*> bases;
+        void* p[12]; unsigned long long sc[12]; std::vector<char*> bases; std::vector<size_t> sizes;
         for (int a=0;a<c.nargs;++a){
             std::string tok; is >> tok;
-            if (c.args[a].kind==2){ sc[a]=strtoull(tok.c_str(),nullptr,16); p[a]=nullptr; bases.push_back(nullptr); continue; }
-            size_t sz = (size_t)c.args[a].es*c.args[a].n; int m = mis<0 ? c.args[a].es : mis;
-            char* base=(char*)malloc(sz+m); char* b=base+m; bases.push_back(base);
+            if (c.args[a].kind==2){ sc[a]=strtoull(tok.c_str(),nullptr,16); p[a]=nullptr; bases.push_back(nullptr); sizes.push_back(0); continue; }
+            size_t sz = (size_t)c.args[a].es*c.args[a].n; size_t al = c.args[a].align; int m = mis<0 ? 0 : mis;
+            // buffer flush against an inaccessible guard page (start aligned to exactly the guaranteed alignment where possible)
+            size_t pg = 4096, rsz = ((sz + al-1)/al)*al, np = (rsz + m + pg-1)/pg + 1;
+            char* base=(char*)mmap(0,(np+1)*pg,PROT_READ|PROT_WRITE,MAP_PRIVATE|MAP_ANONYMOUS,-1,0);
+            mprotect(base+np*pg, pg, PROT_NONE);
+            char* b = base+np*pg - rsz - m; bases.push_back(base); sizes.push_back((np+1)*pg);
             for(size_t i=0;i<sz;++i) b[i]=(char)(hexv(tok[2*i])*16+hexv(tok[2*i+1]));
             p[a]=b;
         }
@@ -62,7 +67,7 @@ int main(){
             for(size_t i=0;i<sz;++i){ out+=H[b[i]>>4]; out+=H[b[i]&15]; }
         }
         puts(out.c_str()); fflush(stdout);
-        for (auto b: bases) free(b);
+        for (size_t i=0;i<bases.size();++i) if (bases[i]) munmap(bases[i], sizes[i]);
     }
     return 0;
 }
@@ -86,7 +91,7 @@ def driver_source(cases):
             out.append(f'static void t{which}_{c.id}(void** p, unsigned long long* sc){{ {which}_{c.id}({", ".join(call)}); }}')
     out.append('FsvCase fsv_cases[] = {')
     for c in cases:
-        args = ','.join('{%d,%d,%d}' % ((2, 8, 1) if isinstance(a, Scal) else (0 if a.role == 'in' else 1, a.es, a.n)) for a in c.args)
+        args = ','.join('{%d,%d,%d,%d}' % ((2, 8, 1, 8) if isinstance(a, Scal) else (0 if a.role == 'in' else 1, a.es, a.n, a.align)) for a in c.args)
         r = f't r_{c.id}'.replace(' ', '') if c.ref_src is not None else 'nullptr'
         out.append(f'  {{"{c.id}", tk_{c.id}, {("tr_" + c.id) if c.ref_src is not None else "nullptr"}, {len(c.args)}, {{{args}}}}},')
     out.append('};\nint fsv_ncases = %d;' % len(cases))
@@ -183,12 +188,12 @@ def rand_inputs(case, rng, style):
     return inp
 
 
-def subst_map(case, inp, dom_name):
+def subst_map(case, inp, dom_name, skip_scalars=False):
     """z3 substitution list for a concrete input assignment"""
     subs = []
     for a in case.args:
         if isinstance(a, Scal):
-            if a.value is None and a.kind == 'i': subs.append((z3.BitVec(a.name, a.w), z3.BitVecVal(inp[a.name], a.w)))
+            if a.value is None and a.kind == 'i' and not skip_scalars: subs.append((z3.BitVec(a.name, a.w), z3.BitVecVal(inp[a.name], a.w)))
             continue
         if a.role == 'out' or isinstance(a.init, list): continue
         bs = inp[a.name]
@@ -261,7 +266,7 @@ def run_case(mod, case, opts):
             continue
         if o.depth is not None: res['depth_max'] = max(res['depth_max'], o.depth[0])
         hyp = list(o.hyp) + list(getattr(o.kp.dom, 'hyp', []))
-        r, m, dt, who = smt.prove(o.pc, hyp, o.goal, timeout_s=opts.get('timeout', case.timeout), logic=case.logic, portfolio=case.fresh)
+        r, m, dt, who = smt.prove(o.pc, hyp, o.goal, timeout_s=opts.get('timeout', case.timeout), logic=case.smt_logic(), portfolio=case.portfolio)
         solver_t += dt
         if r == 'unsat': res['discharged'] += 1
         elif r == 'sat': res['sat'].append({'label': o.label, 'note': o.note, 'model': m, 'kind': o.kind})
@@ -290,33 +295,36 @@ def run_case(mod, case, opts):
 
 def predictions(case, kpaths, seed, n):
     """evaluate the symbolic outputs on concrete inputs (for comparison with the native build)"""
-    rng = random.Random(hash((seed, case.id)) & 0xffffffff)
+    import zlib
+    rng = random.Random(zlib.crc32(f'{seed}:{case.id}'.encode()))
     preds = []
     dom_name = kpaths[0].dom.name
     style = getattr(case, 'val_style', 'smallint' if dom_name == 'real' else 'mixed')
     V = case.scalar_vars(); pre = case.pre(V)
+    scal = [a for a in case.args if isinstance(a, Scal)]
     for k in range(n):
-        inp = rand_inputs(case, rng, style)
-        # scalars: take a model of the precondition
-        if any(isinstance(a, Scal) and a.value is None for a in case.args):
-            s = z3.Solver(); s.add(pre)
-            for a in case.args:
-                if isinstance(a, Scal) and a.value is None and a.kind == 'i':
-                    pass
-            s.set('random_seed', k + 1)
-            if s.check() != z3.sat: break
-            m = s.model()
-            for a in case.args:
-                if isinstance(a, Scal):
-                    if a.value is not None: inp[a.name] = a.value & ((1 << a.w) - 1)
-                    elif a.kind == 'i': inp[a.name] = m.eval(z3.BitVec(a.name, a.w), model_completion=True).as_long()
-                    else: inp[a.name] = 0
-            # diversify: block this assignment next time
-            blk = [z3.BitVec(a.name, a.w) != inp[a.name] for a in case.args if isinstance(a, Scal) and a.value is None and a.kind == 'i']
-            if blk: pre = pre + [z3.Or(blk)]
-        else:
-            for a in case.args:
-                if isinstance(a, Scal): inp[a.name] = a.value & ((1 << a.w) - 1)
+        inp = None
+        for attempt in range(12):
+            cand = rand_inputs(case, rng, style)
+            for a in scal: cand[a.name] = (a.value & ((1 << a.w) - 1)) if a.value is not None else None
+            bsubs = subst_map(case, {k_: v for k_, v in cand.items() if v is not None}, dom_name, skip_scalars=True)
+            resid = [eval_term(c, bsubs) for c in pre]
+            if any(z3.is_false(c) for c in resid): continue
+            resid = [c for c in resid if not z3.is_true(c)]
+            sv = z3.Solver(); sv.set('timeout', 5000); sv.add(resid)
+            for a in scal:
+                if a.value is None and a.kind == 'i' and attempt < 8:
+                    # bias towards diverse values
+                    sv.push(); sv.add(z3.BitVec(a.name, a.w) % 7 == rng.randint(0, 6))
+                    if sv.check() != z3.sat: sv.pop()
+            if sv.check() != z3.sat: continue
+            m = sv.model()
+            for a in scal:
+                if a.value is None:
+                    cand[a.name] = m.eval(z3.BitVec(a.name, a.w), model_completion=True).as_long() if a.kind == 'i' else 0
+            # element variables left unconstrained by the random draw but constrained by resid keep their random value only if consistent
+            inp = cand; break
+        if inp is None: continue
         subs = subst_map(case, inp, dom_name)
         # which path?
         chosen = None
